@@ -143,3 +143,19 @@ pub fn add_with_roots(rng: &mut Rng, r: &Row, cw: &mut [u8], b: usize, roots: &[
         cw[pos[n - 1 - d]] ^= *c;
     }
 }
+
+/// add to block b the syndromes of a single error of value `e` at the *virtual* polynomial position
+/// `p` (p >= block length is outside the received word): r += e * x^p mod g, which lives entirely in
+/// the error-codeword part. The locator then has a root at 2^-p, i.e. an error location >= n.
+pub fn add_virtual_error(r: &Row, rs: &Rs, cw: &mut [u8], b: usize, p: usize, e: u8) {
+    let k = r.k();
+    if p < k {
+        return;
+    }
+    let mut d = vec![0u8; p - k + 1];
+    d[0] = e;
+    let par = rs.parity(d.into_iter());
+    for (j, v) in par.iter().enumerate() {
+        cw[r.data + b + j * r.blocks] ^= *v;
+    }
+}
